@@ -373,13 +373,16 @@ func (v *vRouter) quicStream(s *quicServer, remote, local netip.AddrPort) *quicC
 	st, peer := env.NewFakeStream(0, vUDPAddr(local), vUDPAddr(remote))
 	q := &quicClient{s: st, peer: peer}
 	v.closers = append(v.closers, func() { peer.Close(); st.E.Abort() })
+	// the stream goes through the real handleConn (accept loop, limiter, per-stream goroutine), as quicServer.run starts it
 	go func() {
-		defer func() {
-			st.Close()
-			st.CancelRead(0)
-			publish(func() { q.done = true })
-		}()
-		s.handleStream(st, conn, remote, local)
+		s.handleConn(conn)
+		conn.CloseWithError(0, "")
+	}()
+	conn.PushStream(st)
+	v.closers = append(v.closers, func() { conn.Die() })
+	go func() {
+		<-st.Context().Done() // the handler closed the send side (or the stream was killed)
+		publish(func() { q.done = true })
 	}()
 	return q
 }
